@@ -1,5 +1,6 @@
 //! L1 checks: pure, single-threaded code under test driven by scripted mocks.
 pub mod c13;
+pub mod c14;
 pub mod c15;
 pub mod c16;
 pub mod c17;
